@@ -354,7 +354,7 @@ def _check_helpers(hdr, pay, arg, V, fr2=None, label='file'):
         ts = np.asarray(stg.get_ts(arg))
         lo, hi = stg.min_freq(arg), stg.max_freq(arg)
         dat = np.asarray(stg.get_data(arg))
-    except Exception as e:
+    except (Exception, SystemExit) as e:
         V('waterfall_utils', 'raised', 'helper raised on %s: %s: %s' % (label, type(e).__name__, e))
         return
     if fs.shape != (n,):
@@ -497,7 +497,7 @@ def _replay(c, hist, V):
             fr = _apply(fr, op)
         except NotApplicable:
             return None
-        except Exception as e:
+        except (Exception, SystemExit) as e:      # blimpy's HDF5 reader calls sys.exit(86) on a file it rejects
             if k == len(hist) - 1:
                 V('history_op', 'op_raised', 'operation %s after %s raised %s: %s'
                   % (op, hist[:k], type(e).__name__, e), op=op)
